@@ -21,7 +21,7 @@ P = {
         "the lazy Consensus path, and one factory reused over sequences of calls; the recursion __mergesortlike, the "
         "missing-element counts and the completeness refusal are bounded only."),
         tech=TECH_MIX),
-    "C02": dict(cat="proof", text=(
+    "C02": dict(cat="other", text=(
         "Proved for all inputs (any n, m, weights, any 2x6 scheme with symmetric T): every off-diagonal cell of the table "
         "built by the numba kernel equals the definitional sum over rankings, the diagonal is 0, inputs are unchanged, "
         "all subscripts are in range; mirror consistency follows from two induction lemmas; one iteration of "
@@ -61,7 +61,7 @@ P = {
         "ParCons groups in order, every optimum (full optimum set, n <= 5) respects it, consistent_with on all "
         "(partition, ranking) pairs over <= 4 elements. The robustness theorem is cited and validated against the oracle."),
         tech=TECH_MIX),
-    "C08": dict(cat="proof", text=(
+    "C08": dict(cat="other", text=(
         "Proved for all inputs (any n, any mirror-consistent cost table, any dense start): when BioConsert's local search "
         "_improve_one_ranking returns, for every element, joining any other existing bucket or standing alone in a new "
         "bucket at any position changes the sum of its pairwise costs by no less than -0.001 (searches with termination, "
@@ -123,13 +123,13 @@ P = {
         "Bounded: round trip of every ranking over <= 3 names in 14 textual variants, file round trip (empty rankings "
         "included), every string of length <= 5 (<= 7) over the format alphabet parsed or refused with ValueError within a "
         "CPU budget."), tech=TECH_T2),
-    "C19": dict(cat="proof", text=(
+    "C19": dict(cat="other", text=(
         "Proved (NaN modelled): the constructor accepts exactly the valid schemes and raises the specific exception "
         "otherwise (typed lists of 6 floats); is_equivalent_to / ..._on_complete_rankings_only answer true exactly when "
         "one scheme is a positive multiple of the other on both vectors (entries 0..stop-1, any 2 <= stop <= 6). Bounded: "
         "malformed shapes / types, scaling, score homogeneity, nicknames; all 4^12 grid tuples in thorough."),
         tech=TECH_MIX),
-    "C20": dict(cat="proof", text=(
+    "C20": dict(cat="other", text=(
         "Proved for all vectors: each of the six Markov moves preserves the dense-bucket-numbering invariant (ghost "
         "witnesses, counting lemmas), keeps rankedness as documented. Bounded: the walk driver, conversion to rankings, "
         "dataset wrappers, uniform permutations, every step of 30k seeded walks monitored."), tech=TECH_MIX),
